@@ -1,12 +1,23 @@
 (* Time and memory limits (C15): Engine::next's periodic limit check (search/mod.rs:589-614), the
    memory estimate (get_memory_usage_mb), and the post-hoc error mapping of Model::solve /
    minimize / enumerate_with_stats (model/core.rs).  The depth-first search of Model/Search.v is
-   re-run with an iteration counter: the engine's outer loop is entered (i) at the first call of
-   next(), (ii) when the consumer asks for the next solution after one was yielded, (iii) after a
-   child subtree is exhausted and its parent iterator is popped (descending into a stalled child
-   `continue`s the inner while loop and does not pass the check).  Every such entry increments
+   re-run with an iteration counter.  Engine::limit_reached (the periodic limit test) is executed
+   (i) at the first call of next(), (ii) when the consumer asks for the next solution after one was
+   yielded, (iii) after a child subtree is exhausted and its parent iterator is popped — these
+   three are the head of the engine's outer loop — and, since the repair `limits_deep`, (iv) when
+   the engine DESCENDS: a stalled child has been pushed (the stack is one frame deeper) and the
+   inner while loop is about to `continue` with the child's iterator.  Every execution increments
    iteration_count and, when it is a multiple of the check interval, consults the clock (an
-   oracle `clock : nat -> bool` on the check index) and then the memory estimate. *)
+   oracle `clock : Z -> bool` on the check index) and then the memory estimate.
+   (Before the repair (iv) was missing: a search that only descends never looked at its limits.)
+   The wall-clock deadline inside search::propagate_until (a propagation still running when the
+   time limit has passed is given up and reported as a failed space; the engine then looks at the
+   clock and returns None, search_with_timeout_and_memory answers Search::TimedOut) is modelled as
+   what it is: a second oracle `giveup` that may turn ANY propagation — of the root or of a child —
+   into "the deadline has passed".  It is a function of the space handed to the propagation (the
+   spaces propagated in one run are pairwise different, so this is as general as an oracle on the
+   index of the call).  `nogiveup` is the oracle of a run without time limit; the scripted clock of
+   hook H4 never reaches propagate_until, so the differential runs the model with `nogiveup`. *)
 Require Import Selen.Model.Prelude Selen.Model.Dom Selen.Model.Views Selen.Model.PropDefs.
 Require Import Selen.Model.Props.Basic Selen.Model.Propagate Selen.Model.Search.
 Require Import Selen.Generated.Consts.
@@ -28,6 +39,9 @@ Section Limits.
   Variable interval : Z.              (* timeout_check_interval, > 0 *)
   Variable clock : Z -> bool.        (* clock k = the time limit is seen as expired at the k-th check *)
   Variable mlimit : option Z.       (* memory_limit_mb *)
+  (* giveup ps s = the propagation of the space (ps, s) is still running when the deadline passes
+     (propagate_until answers None and the clock says "expired"), or fails after it has passed *)
+  Variable giveup : list prop -> store -> bool.
 
   (* one entry of the engine's outer loop at stack depth `depth` *)
   Definition tick (depth : nat) (l : lstate) : lstate + (limit * lstate) :=
@@ -64,6 +78,9 @@ Section Limits.
             let mp := on_branch_props m best in
             let ps2 := ps1 ++ mp in
             let ag := agenda_with (seq (S bid) (length mp) ++ [bid]) in
+            (* propagate_until gives up at the deadline: `trigger_cleanup(); return None`, and
+               is_timed_out() is true from then on *)
+            if giveup ps2 s then LStop [] best l (SLimit LTimeout) depth else
             match propagate pick (prop_fuel ps2 s ag) ps2 s ag with
             | PFuel => LFuel
             | PFail => LStop [] best l SExhausted depth
@@ -77,8 +94,12 @@ Section Limits.
                   end
                 else LStop [s'] (on_solution m best s') l SConsumer depth
               else
-                (* stalled: push and `continue` the inner while loop with the new iterator: no tick *)
-                match dfs_lim f (S depth) ps2 s' best l with
+                (* stalled: the child is pushed (depth + 1 frames) and the limits are tested before the
+                   inner while loop `continue`s with the new iterator *)
+                match tick (S depth) l with
+                | inr (w, l0) => LStop [] best l0 (SLimit w) (S depth)
+                | inl l0 =>
+                match dfs_lim f (S depth) ps2 s' best l0 with
                 | LFuel => LFuel
                 | LStop sols b l' SExhausted _ =>
                   (* subtree exhausted: its iterator is popped, the outer loop is entered again here *)
@@ -87,6 +108,7 @@ Section Limits.
                   | inl l'' => LStop sols b l'' SExhausted depth
                   end
                 | r => r
+                end
                 end
             end in
           match child (mk_leq (VVar pivot) (VConst mid)) best l with
@@ -104,6 +126,9 @@ Section Limits.
   (* search_with_timeout_and_memory (LP block off): root propagation, then the engine *)
   Definition search_lim (ps : list prop) (s : store) : lres + option store :=
     let ag := agenda_with (seq 0 (length ps)) in
+    (* the root propagation is given up at the deadline: Search::TimedOut — yields nothing,
+       is_timed_out() = true, no limit check was made *)
+    if giveup ps s then inl (LStop [] None (mkl 0 0) (SLimit LTimeout) 0) else
     match propagate pick (prop_fuel ps s ag) ps s ag with
     | PFuel => inl LFuel
     | PFail => inr None                                (* Search::Done(None) *)
@@ -126,10 +151,11 @@ Definition timed_out (why : stop) (late : bool) : bool :=
 (* Model::solve: build-time memory flag, first solution, then is_timed_out / is_memory_limit_exceeded
    / result, in this order (core.rs:1501-1583).  `late` = what the real clock says when solve asks
    after the iterator returned (true whenever a check already saw the limit expired). *)
-Definition solve_lim (pick : sched) (interval : Z) (clock : Z -> bool) (mlimit : option Z)
+Definition solve_lim_g (pick : sched) (interval : Z) (clock : Z -> bool) (mlimit : option Z)
+           (giveup : list prop -> store -> bool)
            (buildmem late : bool) (ps : list prop) (s : store) : outcome * Z :=
   if buildmem then (OMemory, 0) else
-  match search_lim pick None interval clock mlimit false ps s with
+  match search_lim pick None interval clock mlimit giveup false ps s with
   | inr None => (ONoSolution, 0)
   | inr (Some t) => (OOk t, 0)
   | inl LFuel => (OFuelOut, 0)
@@ -140,10 +166,11 @@ Definition solve_lim (pick : sched) (interval : Z) (clock : Z -> bool) (mlimit :
   end.
 
 (* Model::minimize (search path): iterate to the first None, keep the last solution (core.rs:432-557) *)
-Definition minimize_lim (pick : sched) (interval : Z) (clock : Z -> bool) (mlimit : option Z)
+Definition minimize_lim_g (pick : sched) (interval : Z) (clock : Z -> bool) (mlimit : option Z)
+           (giveup : list prop -> store -> bool)
            (buildmem late : bool) (obj : view) (ps : list prop) (s : store) : outcome * Z :=
   if buildmem then (OMemory, 0) else
-  match search_lim pick (Some obj) interval clock mlimit true ps s with
+  match search_lim pick (Some obj) interval clock mlimit giveup true ps s with
   | inr None => (ONoSolution, 0)
   | inr (Some t) => (OOk t, 0)
   | inl LFuel => (OFuelOut, 0)
@@ -154,15 +181,31 @@ Definition minimize_lim (pick : sched) (interval : Z) (clock : Z -> bool) (mlimi
   end.
 
 (* Model::enumerate_with_stats / enumerate consumed until the first None: the solutions collected *)
-Definition enumerate_lim (pick : sched) (interval : Z) (clock : Z -> bool) (mlimit : option Z)
+Definition enumerate_lim_g (pick : sched) (interval : Z) (clock : Z -> bool) (mlimit : option Z)
+           (giveup : list prop -> store -> bool)
            (buildmem : bool) (ps : list prop) (s : store) : option (list store * Z) :=
   if buildmem then Some ([], 0) else
-  match search_lim pick None interval clock mlimit true ps s with
+  match search_lim pick None interval clock mlimit giveup true ps s with
   | inr None => Some ([], 0)
   | inr (Some t) => Some ([t], 0)
   | inl LFuel => None
   | inl (LStop sols _ l _ _) => Some (sols, checks l)
   end.
+
+(* no propagation is ever given up (no time limit configured, or the scripted clock of hook H4) *)
+Definition nogiveup : list prop -> store -> bool := fun _ _ => false.
+
+(* the entry points under the periodic limit test alone: what hook H4 can script, and what the
+   differential compares check for check *)
+Definition solve_lim (pick : sched) (interval : Z) (clock : Z -> bool) (mlimit : option Z)
+           (buildmem late : bool) (ps : list prop) (s : store) : outcome * Z :=
+  solve_lim_g pick interval clock mlimit nogiveup buildmem late ps s.
+Definition minimize_lim (pick : sched) (interval : Z) (clock : Z -> bool) (mlimit : option Z)
+           (buildmem late : bool) (obj : view) (ps : list prop) (s : store) : outcome * Z :=
+  minimize_lim_g pick interval clock mlimit nogiveup buildmem late obj ps s.
+Definition enumerate_lim (pick : sched) (interval : Z) (clock : Z -> bool) (mlimit : option Z)
+           (buildmem : bool) (ps : list prop) (s : store) : option (list store * Z) :=
+  enumerate_lim_g pick interval clock mlimit nogiveup buildmem ps s.
 
 Definition never : Z -> bool := fun _ => false.
 (* the scripted clock of hook H4: expired from the k-th check on *)
